@@ -89,7 +89,7 @@ def _alarm(signum, frame):
   raise Timeout()
 
 
-def run(fn, module, args_src, timeout=6, unwrap_convert=False, glob_names=('G1', 'G2', 'zG3')):
+def run(fn, module, args_src, timeout=6, unwrap_convert=False, glob_names=('G1', 'G2', 'zG3', 'NL')):
   """Runs fn(*args) where args are built inside `module`. Returns an outcome dict."""
   del module.LOG[:]
   args = eval(args_src, module.__dict__)  # pylint:disable=eval-used
